@@ -216,6 +216,20 @@ def _poison_after(s, frame):
             frame.env.vars[n.id] = Poison()
 
 
+def _alt_labels(alts):
+    out = []
+    n = 0
+    for kind, _c, extra in alts:
+        if kind == "raise":
+            out.append("loop:raise:" + extra.__name__)
+        elif kind == "normal":
+            out.append("loop:normal")
+        else:
+            n += 1
+            out.append("loop:%s:%d:%s" % (kind, n, ",".join(str(x) for x in (extra.trail or []))))
+    return out
+
+
 def foreach_concrete(interp, s, frame, items):
     """For-each rule over a concrete (long) collection: the body is summarized per element."""
     from .interp import _Return, _Break
@@ -241,7 +255,7 @@ def foreach_concrete(interp, s, frame, items):
         alts.append(("raise", disj(cs), cls))
     for o, c in others:
         alts.append((o.kind, c, o))
-    i = ctx.choose([a[1] for a in alts])
+    i = ctx.choose([a[1] for a in alts], labels=_alt_labels(alts))
     kind, _, extra = alts[i]
     if kind == "normal":
         _poison_after(s, frame)
@@ -290,7 +304,7 @@ def foreach_generic(interp, s, frame, g):
             alts.append((o.kind, z3.And(mem_star, z3.substitute(o.cond(), (g.bv, star))), o))
     for cls, cs in groups.items():
         alts.append(("raise", z3.And(mem_star, z3.substitute(disj(cs), (g.bv, star))), cls))
-    i = ctx.choose([a[1] for a in alts])
+    i = ctx.choose([a[1] for a in alts], labels=_alt_labels(alts))
     kind, _, extra = alts[i]
     if kind == "normal":
         _poison_after(s, frame)
@@ -448,7 +462,7 @@ def _abrupt_alternatives(interp, outs, g):
     classes = list(groups)
     for cls in classes:
         alts.append(z3.And(mem_star, z3.substitute(disj(groups[cls]), (g.bv, star))))
-    i = ctx.choose(alts)
+    i = ctx.choose(alts, labels=["comp:ok"] + ["comp:raise:" + c.__name__ for c in classes])
     if i > 0:
         interp.raise_(classes[i - 1])
 
